@@ -3,6 +3,9 @@ import numpy as np
 from .. import plotgen, oracle, leanio, pools, geom
 from ..common import quiet, alarm
 from .c01 import dedup_names
+from . import c07
+
+COORDS_DONE = set()
 
 RULE = ("case = (generated 2D plotfile spec (rectangular domains down to one block, non-zero origin, non-square boxes, "
         "scattered layouts), field list incl. several fields / 'all' / grid_level, level limit, serial or pool with a start "
@@ -59,8 +62,33 @@ def run_case(ctx, rep, spec, fields, limit, serial, model, start=None, path=None
         got = np.asarray(out.get(key))
         if got.shape != want.shape or not np.allclose(got, want, rtol=1e-12, atol=1e-12):
             bad.append(f"{key} coordinates are not the cell centres of the level-{L} grid")
+    if not bad and model and (path, L) not in COORDS_DONE:
+        COORDS_DONE.add((path, L))
+        for d, key in enumerate(("x", "y")):
+            n = spec["grid0"][d] * 2 ** L
+            lo_d = spec["geo_low"][d]; hi_d = lo_d + spec["dx0"][d] * spec["grid0"][d]; dx_d = spec["dx0"][d] / 2 ** L
+            m = leanio.driver([{"op": "coords", "lo": c07.J(lo_d), "hi": c07.J(hi_d), "dx": c07.J(dx_d), "n": n}])[0]
+            mv = np.array([a / b for a, b in m["axis"]]) if "axis" in m else None
+            rep.count("coords-theorem-hypothesis-" + ("holds" if m.get("exact") else "fails"))
+            if mv is not None and mv.shape == np.asarray(out[key]).shape and \
+                    np.allclose(np.asarray(out[key]), mv, rtol=0, atol=1e-12 * max(abs(lo_d), abs(hi_d), dx_d)):
+                rep.agree()
+            else:
+                rep.tie("coordinates differ from the Lean coordinate model", case, {"model": m.get("status")})
+    extra = [k for k in out if k in names and k not in want_names]
+    if extra:
+        bad.append(f"the result holds fields that were not requested: {extra}")
     for b in bad[:3]:
         rep.fail(b, case)
+    if not bad and model:
+        # which components are read and under which names they are returned: the Lean field rule of mandoline
+        m = leanio.driver([{"op": "names", "tool": "mandoline", "names": list(names),
+                            "vars": [fields] if isinstance(fields, str) else list(fields)}])[0]
+        real_names = [k for k in out if k in names]
+        if m.get("refused") is False and m.get("fields") == real_names and m.get("grid") == ("grid_level" in out):
+            rep.agree()
+        else:
+            rep.tie("the fields mandoline returned differ from the Lean field rule", case, {"real": real_names, "model": m})
     if bad or not model or spec["data"]["mode"] != "tags":
         return
     shape = [g * 2 ** L for g in spec["grid0"]]
@@ -81,6 +109,10 @@ def run(ctx, rep, model=True):
         spec = plotgen.random_spec(ctx.rng, ndims=2, nlev=[1, 2, 3, 2][i % 4], nf=[2, 3, 1][i % 3], data="tags", B=[2, 4][i % 2],
                                    nblk=[[1, 1], [2, 1], [3, 2], [1, 3]][i % 4] if i % 2 == 0 else None,
                                    layout=["scatter", "perm", "files"][i % 3])
+        if i % 5 == 3 and len(spec["fields"]) >= 2:
+            # two names that differ only by the shell-friendly spelling of the parentheses
+            spec["fields"][0], spec["fields"][-1] = [("Y_OH", "Y(OH)"), ("Y(HO2)", "Y_HO2"), ("I_R_H2", "I_R(H2)")][(i // 5) % 3]
+            rep.count("names-differing-by-parentheses")
         path = ctx.newdir("c08_")
         truth = plotgen.materialize(spec, path)
         names = list(dedup_names(spec["fields"]))
